@@ -75,9 +75,9 @@ theorem colGrid_perm (A B : List Blk) : (colGrid A B).Perm (gridI A B) := by
       congr 1
       funext y
       by_cases h : overlapKernel x y = true
-      · simp [List.filterMap_cons, h]
+      · simp [h]
       · have h' : overlapKernel x y = false := by simpa using h
-        simp [List.filterMap_cons, h']
+        simp [h']
     rw [hg, hc, rowI_as_flatMap]
     exact (flatMap_append_perm B _ _).trans (List.Perm.append_left _ ih)
 
@@ -175,5 +175,29 @@ theorem isectCCcgr_eq (la lb : Loc) (ms fs : Bool)
         · rw [if_neg hg, if_neg hg, cgrTail_eq la lb ms hg hva hvb]
           simp only [guarded_row_eq]
           rfl
+
+/-- a zero-length block strictly inside a block of the other operand: the tree reports the pair, the pair's
+    intersection is EmptyLocation, and building the result raises EmptyLocationException — while the pairwise branch
+    answers the intersection -/
+theorem isectCCcgr_zero_length_raises :
+    isectCCcgr ⟨[(2, 2), (5, 8)], .plus⟩ ⟨[(0, 10)], .plus⟩ true false = .error .EmptyLocation ∧
+    isectCC ⟨[(2, 2), (5, 8)], .plus⟩ ⟨[(0, 10)], .plus⟩ true false = .ok (.single (5, 8) .plus) := by
+  constructor
+  · rfl
+  · have hs : sortBlocks .plus [((5, 8) : Blk)] = [(5, 8)] := by simp [sortBlocks]
+    have hm : mkCompoundLoc [((5, 8) : Blk)] .plus = .ok ⟨[(5, 8)], .plus⟩ := by
+      simp [mkCompoundLoc, hs, blocksValid]; rfl
+    have hb : (List.flatMap (fun x => if [((0, 10) : Blk)].any (fun y => overlapKernel y x) = true then
+          [((0, 10) : Blk)].filterMap (fun y => if overlapKernel x y = true then some (isectBlk x y) else none)
+        else []) [((2, 2) : Blk), (5, 8)]) = [(5, 8)] := by decide
+    unfold isectCC
+    have ho : hasOverlap (.compound ⟨[(2, 2), (5, 8)], .plus⟩) (.compound ⟨[(0, 10)], .plus⟩) true false = .ok true := rfl
+    rw [ho]
+    simp only [ok_bind, Bool.not_true, Bool.false_eq_true, if_false, ne_eq, not_true_eq_false, and_false, hb, hm]
+    rfl
+
+-- the hypotheses of `isectCCcgr_eq` are satisfiable by a non-trivial pair (touching and nested blocks, no empty one)
+example : (∀ x ∈ (⟨[(0, 3), (1, 2), (3, 6)], .minus⟩ : Loc).blocks, x.1 < x.2) ∧
+    (∀ y ∈ (⟨[(2, 4), (5, 9)], .plus⟩ : Loc).blocks, y.1 < y.2) := by decide
 
 end BioCantor.Proofs.Cgr
